@@ -8,7 +8,7 @@ CONSTANTS
   MaxAcc = 4
   MaxAfterEnd = 2
   EarlyDestroy = TRUE
-  PostIncMoves = TRUE
+  PostIncMoves = FALSE
   Threaded = FALSE
 INVARIANTS TypeOK SameSequence PayloadIntact SingleEOS ExceptionAtPosition ArgDelivered LocalsDestroyedOnce BlockedOnlyOnPending RecordClean TerminalOK
 CHECK_DEADLOCK FALSE
